@@ -386,6 +386,7 @@ func runWSDial(t *testing.T, ci interface{}, trace bool) *common.Outcome {
 			if trackBody != nil {
 				conf.BodyAllocator = trackBody
 			}
+			nbio.MaxOpenFiles = kernel.FDLimit // (a package variable: a core run of the same worker process may have lowered it)
 			ceng = nbhttp.NewEngine(conf)
 			ceng.MaxWebsocketFramePayloadSize = eng.MaxWebsocketFramePayloadSize
 			if err := ceng.Start(); err != nil {
